@@ -1021,6 +1021,9 @@ pub struct Layout {
     pub comments: bool,
     /// extra blank lines between top-level items
     pub blank_lines: usize,
+    /// with `extra_parens`: do NOT parenthesise the right-hand side of a record-pattern `let`
+    /// (known finding C16-parenthesised-record-pattern-rhs)
+    pub keep_record_let_rhs_bare: bool,
 }
 
 pub fn render(p: &Prog, lay: &Layout) -> String {
@@ -1127,7 +1130,8 @@ fn render_sub(e: &E, lay: &Layout, level: usize, out: &mut String, cn: &mut usiz
 }
 
 pub fn render_e(e: &E, lay: &Layout, level: usize, out: &mut String, cn: &mut usize) {
-    if lay.extra_parens && !matches!(e, E::Block(..) | E::Lit(_) | E::Var(_)) {
+    let bare_record = lay.keep_record_let_rhs_bare && matches!(e, E::Rec(_) | E::RecUpd(..) | E::Lam(..));
+    if lay.extra_parens && !bare_record && !matches!(e, E::Block(..) | E::Lit(_) | E::Var(_)) {
         out.push('(');
         render_e_inner(e, lay, level, out, cn);
         out.push(')');
@@ -1178,7 +1182,11 @@ fn render_e_inner(e: &E, lay: &Layout, level: usize, out: &mut String, cn: &mut 
                         out.push_str("let ");
                         render_pat(p, out);
                         out.push_str(" = ");
-                        render_e(e, lay, level + 1, out, cn);
+                        if lay.keep_record_let_rhs_bare && matches!(p, Pat::Rec(_)) {
+                            render_e_inner(e, lay, level + 1, out, cn);
+                        } else {
+                            render_e(e, lay, level + 1, out, cn);
+                        }
                     }
                     S::Assign(n, e) => {
                         let _ = write!(out, "{n} = ");
@@ -1460,4 +1468,127 @@ pub fn mutate(p: &mut Prog, g: &mut Gen, allow_unit_block: bool) -> &'static str
         i += 1;
     });
     kind
+}
+
+// ---------------------------------------------------------------------- renaming
+
+fn rename_pat(p: &mut Pat, f: &dyn Fn(&str) -> String) {
+    match p {
+        Pat::Var(n) => *n = f(n),
+        Pat::Tup(ps) => ps.iter_mut().for_each(|q| rename_pat(q, f)),
+        Pat::Rec(fs) => fs.iter_mut().for_each(|(_, q)| rename_pat(q, f)),
+    }
+}
+
+fn rename_e(e: &mut E, f: &dyn Fn(&str) -> String) {
+    match e {
+        E::Var(n) => *n = f(n),
+        E::Lit(_) | E::SelfV | E::Now | E::SampleRate | E::Raw(_) => {}
+        E::Bin(_, a, b) | E::B2(_, a, b) | E::Pipe(_, a, b) => {
+            rename_e(a, f);
+            rename_e(b, f);
+        }
+        E::Neg(a) | E::B1(_, a) | E::Proj(a, _) | E::Field(a, _) | E::Mem(_, a) => rename_e(a, f),
+        E::If(c, a, b) => {
+            rename_e(c, f);
+            rename_e(a, f);
+            rename_e(b, f);
+        }
+        E::Block(ss, last) => {
+            for s in ss {
+                match s {
+                    S::Let(p, x) => {
+                        rename_pat(p, f);
+                        rename_e(x, f);
+                    }
+                    S::Assign(n, x) => {
+                        *n = f(n);
+                        rename_e(x, f);
+                    }
+                }
+            }
+            rename_e(last, f);
+        }
+        E::Tup(es) => es.iter_mut().for_each(|x| rename_e(x, f)),
+        E::Rec(fs) => fs.iter_mut().for_each(|(_, x)| rename_e(x, f)),
+        E::RecUpd(a, fs) => {
+            rename_e(a, f);
+            fs.iter_mut().for_each(|(_, x)| rename_e(x, f));
+        }
+        E::Lam(ps, b) => {
+            ps.iter_mut().for_each(|p| p.name = f(&p.name));
+            rename_e(b, f);
+        }
+        E::Call(_, c, args) => {
+            rename_e(c, f);
+            args.iter_mut().for_each(|x| rename_e(x, f));
+        }
+        E::Delay(_, _, x, t) => {
+            rename_e(x, f);
+            rename_e(t, f);
+        }
+    }
+}
+
+/// all user-chosen identifiers of a program (binders), in order of first appearance; `dsp` excluded
+pub fn binders(p: &Prog) -> Vec<String> {
+    let mut out: Vec<String> = vec![];
+    let mut add = |n: &str| {
+        if n != "dsp" && !out.iter().any(|x| x == n) {
+            out.push(n.to_string());
+        }
+    };
+    fn pat(p: &Pat, add: &mut dyn FnMut(&str)) {
+        match p {
+            Pat::Var(n) => add(n),
+            Pat::Tup(ps) => ps.iter().for_each(|q| pat(q, add)),
+            Pat::Rec(fs) => fs.iter().for_each(|(_, q)| pat(q, add)),
+        }
+    }
+    fn ex(e: &E, add: &mut dyn FnMut(&str)) {
+        let mut e2 = e.clone();
+        visit_mut(&mut e2, &mut |x| match x {
+            E::Lam(ps, _) => ps.iter().for_each(|p| add(&p.name)),
+            E::Block(ss, _) => ss.iter().for_each(|s| {
+                if let S::Let(p, _) = s {
+                    pat(p, add)
+                }
+            }),
+            _ => {}
+        });
+    }
+    for t in &p.tops {
+        match t {
+            Top::Fn(d) => {
+                add(&d.name);
+                d.params.iter().for_each(|q| add(&q.name));
+                ex(&d.body, &mut add);
+            }
+            Top::Let(n, _, e) => {
+                add(n);
+                ex(e, &mut add);
+            }
+        }
+    }
+    out
+}
+
+/// consistent renaming of every user identifier (`dsp` is kept)
+pub fn rename_prog(p: &Prog, f: &dyn Fn(&str) -> String) -> Prog {
+    let mut q = p.clone();
+    let g = |n: &str| if n == "dsp" { n.to_string() } else { f(n) };
+    for t in &mut q.tops {
+        match t {
+            Top::Fn(d) => {
+                d.name = g(&d.name);
+                d.params.iter_mut().for_each(|x| x.name = g(&x.name));
+                rename_e(&mut d.body, &g);
+            }
+            Top::Let(n, _, e) => {
+                *n = g(n);
+                rename_e(e, &g);
+            }
+        }
+    }
+    q
 }
